@@ -374,11 +374,25 @@ def run_keytraj(spec, res):
                 coder, step_s = vam_coder, 5.2
             lat, lon = rng.uniform(-60, 60), rng.uniform(-170, 170)
             reports = []
+            # the receiver's reported time may fall behind the delivery instant from some report on (leap-second / UTC-offset
+            # correction, week roll-over handling): the stream goes on, one message per report
+            back_from, back_s = (rng.randrange(1, 4), rng.choice((1.0, 2.0, 18.0))) if rng.random() < 0.3 else (99, 0.0)
             for i in range(rng.randrange(3, 8)):
                 clock.advance(step_s)
-                tpv, dropped = gen_report(rng, clock.now())
-                lat, lon = lat + rng.uniform(-1e-4, 1e-4), lon + rng.uniform(-1e-4, 1e-4)
+                tpv, dropped = gen_report(rng, clock.now() - (back_s if i >= back_from else 0.0))
+                if i == back_from:
+                    res.count("keytraj.reported_time_steps_back")
+                still = back_s and i >= back_from and reports and rng.random() < 0.7
+                if not still:
+                    lat, lon = lat + rng.uniform(-1e-4, 1e-4), lon + rng.uniform(-1e-4, 1e-4)
                 tpv["lat"], tpv["lon"] = lat, lon
+                if still:
+                    # standing still: same dynamics as the previous report, so only the elapsed-time trigger can fire
+                    for kk in ("speed", "track"):
+                        tpv.pop(kk, None)
+                        if kk in reports[-1]:
+                            tpv[kk] = reports[-1][kk]
+                    res.count("keytraj.standing_still_reports_after_the_step")
                 for kk in ("epx", "epy", "epv", "epd"):        # error estimates in their nominal ranges: extremes are the single-report parts' business
                     if kk in tpv:
                         tpv[kk] = min(tpv[kk], 10.0) if kk != "epd" else max(0.2, min(tpv[kk], 10.0))
